@@ -460,6 +460,8 @@ def lcfgOf (name : String) (cf : List (String × String)) (rl : String) : LCfg :
       | none => .guard "circuit" 999 0
   | "timelimiter" | "timelimiter_nocancel" =>
       .limiter "timelimiter" (match cfGet cf "to" with | some v => durOf v | none => 3600000)
+  -- (`po`: predicate installed before / after the back-off setter, `bk`: which back-off setter, `bo`, `maf`: not a
+  -- configuration as far as a request can tell — see `retry_configuration_is_order_free`)
   | "retry" => .retry (cfNat cf "ma" 3) (predOf ((cfGet cf "ro").getD "e1"))
   | "cache" => .wrap "cache"
   | "fallback" =>
@@ -475,6 +477,7 @@ def lcfgOf (name : String) (cf : List (String × String)) (rl : String) : LCfg :
         ((cfGet cf "pol").getD "fixed" != "none") (cfNat cf "ror" 1 == 1)
   | "adaptive" => .guard "adaptive" (match cfGet cf "lim" with | some v => v.toNat?.getD 500 | none => 500) 0
   | "coalesce" => .wrap "coalesce"
+  -- (`ex:handle|new|cur`: however the layer was told its runtime; the caller's thread — `arrive … off=1` — is no part of the model)
   | "executor" => .wrap "executor"
   | "chaos" => .bare
   | _ => .blackbox
